@@ -1065,7 +1065,7 @@ class MethFn(ProcFn):
             return f"(match {head} {obj} with Err e => Err e | Ok {nm} => {self.with_binds(binds[1:], e1, k)} end)"
         v, tv = self.expr(what, env)
         e1[nm] = tv
-        return f"(let {nm} : {self.COQ[tv]} := {v} in {self.with_binds(binds[1:], e1, k)})"
+        return f"(let {nm} : {self.COQ2(tv)} := {v} in {self.with_binds(binds[1:], e1, k)})"
 
     def stmts(self, body, env, rec):
         if not body:
@@ -1192,6 +1192,7 @@ class ModFn(MethFn):
     CALLEES = dict(MethFn.CALLEES)
     for _n in ("QUOTER", "FRAGMENT_QUOTER", "PATH_QUOTER", "QUERY_QUOTER"):
         CALLEES[_n] = ("Q B " + _n, [("s", "str", None)], "str", False)
+    CALLEES["normalize_path_segments"] = ("normalize_path_segments", [("segments", "strs", None)], "strs", False)
     CALLEES["from_parts"] = ("from_parts", [("scheme", "str", None), ("netloc", "str", None), ("path", "str", None),
                                             ("query", "str", None), ("fragment", "str", None)], "url", False)
 
@@ -1319,8 +1320,10 @@ class ModFn(MethFn):
         """str names indexed as x[0] outside an [x and ...] guard"""
         guarded, found = set(), []
         for n in ast.walk(node):
-            if isinstance(n, ast.BoolOp) and isinstance(n.op, ast.And) and isinstance(n.values[0], ast.Name):
-                guarded.add(n.values[0].id)
+            if isinstance(n, ast.BoolOp) and isinstance(n.op, ast.And):
+                for v in n.values[:-1]:
+                    if isinstance(v, ast.Name):
+                        guarded.add(v.id)
             if isinstance(n, ast.IfExp) and isinstance(n.test, ast.Name):
                 guarded.add(n.test.id)
         for n in ast.walk(node):
@@ -1366,6 +1369,16 @@ class ModFn(MethFn):
             return t if isinstance(test.ops[0], ast.Eq) else f"(negb {t})"
         if isinstance(test, ast.Name) and env.get(test.id) == "strs":
             return f"(match {test.id} with [] => false | _ :: _ => true end)"
+        if isinstance(test, ast.Compare) and len(test.ops) == 1 and isinstance(test.ops[0], ast.Eq) and isinstance(test.left, ast.Name) \
+                and env.get(test.left.id) == "nat" and isinstance(test.comparators[0], ast.Constant) and isinstance(test.comparators[0].value, int):
+            return f"(Nat.eqb {test.left.id} {test.comparators[0].value})"
+        if isinstance(test, ast.Compare) and len(test.ops) == 1 and isinstance(test.ops[0], (ast.Eq, ast.NotEq)) \
+                and isinstance(test.left, ast.Subscript) and isinstance(test.left.value, ast.Name) and env.get(test.left.value.id) == "strs" \
+                and ast.unparse(test.left.slice) == "-1" and isinstance(test.comparators[0], ast.Constant):
+            # xs[-1] == "lit": either guarded by [xs and ...] (false on the empty list) or checked by the enclosing statement
+            t = f"(match last_opt {test.left.value.id} with Some x0 => str_eqb x0 {lit(test.comparators[0].value)} | None => false end)"
+            neg = isinstance(test.ops[0], ast.NotEq)
+            return f"(match last_opt {test.left.value.id} with Some x0 => negb (str_eqb x0 {lit(test.comparators[0].value)}) | None => false end)" if neg else t
         if isinstance(test, ast.Call) and isinstance(test.func, ast.Name) and test.func.id == "isinstance" and len(test.args) == 2 \
                 and isinstance(test.args[0], ast.Name) and isinstance(test.args[1], ast.Name) and test.args[1].id == "str":
             t = env.get(test.args[0].id)
@@ -1445,7 +1458,7 @@ class ModFn(MethFn):
                 and body[0].value.func.attr in self.methods and self.methods[body[0].value.func.attr] == self.rett and not body[0].value.keywords:
             args = [self.expr(a, env)[0] for a in body[0].value.args]
             return f"(gen_{body[0].value.func.attr.strip('_')} {body[0].value.func.value.id} " + " ".join(args) + ")"
-        if body and isinstance(body[0], (ast.If, ast.Assign, ast.Return)) and not (
+        if body and isinstance(body[0], (ast.If, ast.Assign, ast.Return, ast.AugAssign)) and not (
                 isinstance(body[0], ast.Assign) and isinstance(body[0].targets[0], ast.Subscript)):
             node = body[0].test if isinstance(body[0], ast.If) else body[0].value
             names = [n for n in (self.unguarded(node, env) if node is not None else []) if n not in getattr(self, "nonempty_checked", ())]
@@ -1462,6 +1475,73 @@ class ModFn(MethFn):
                 for n in names:
                     inner = f"(match {n} with [] => Err OtherError | _ :: _ => {inner} end)"
                 return inner
+        # xs.reverse()
+        if body and isinstance(body[0], ast.Expr) and isinstance(body[0].value, ast.Call) and isinstance(body[0].value.func, ast.Attribute) \
+                and body[0].value.func.attr == "reverse" and isinstance(body[0].value.func.value, ast.Name) \
+                and env.get(body[0].value.func.value.id) == "strs" and not body[0].value.args:
+            x = body[0].value.func.value.id
+            return f"(let {x} : list str := rev {x} in {self.stmts(body[1:], env, rec)})"
+        # b |= cond      /      xs += ys
+        if body and isinstance(body[0], ast.AugAssign) and isinstance(body[0].target, ast.Name):
+            x = body[0].target.id
+            if isinstance(body[0].op, ast.BitOr) and env.get(x) == "bool":
+                c = self.cond_bool(body[0].value, env)
+                return f"(let {x} : bool := {x} || {c} in {self.stmts(body[1:], env, rec)})"
+            if isinstance(body[0].op, ast.Add) and env.get(x) == "strs":
+                if isinstance(body[0].value, ast.IfExp):
+                    c = self.cond_bool(body[0].value.test, env)
+                    a, ta = self.expr(body[0].value.body, env)
+                    b, tb = self.expr(body[0].value.orelse, env)
+                    if ta == tb == "strs":
+                        return f"(let {x} : list str := {x} ++ (if {c} then {a} else {b}) in {self.stmts(body[1:], env, rec)})"
+                v, tv = self.expr(body[0].value, env)
+                if tv == "strs":
+                    return f"(let {x} : list str := {x} ++ {v} in {self.stmts(body[1:], env, rec)})"
+            raise Untranslatable("statement " + ast.unparse(body[0])[:80])
+        # xs: list[str] = []      /      b: bool = False
+        if body and isinstance(body[0], ast.AnnAssign) and isinstance(body[0].target, ast.Name) and body[0].value is not None:
+            t = ast.unparse(body[0].annotation)
+            x = body[0].target.id
+            e1 = dict(env)
+            if t == "list[str]" and isinstance(body[0].value, ast.List) and not body[0].value.elts:
+                e1[x] = "strs"
+                return f"(let {x} : list str := [] in {self.stmts(body[1:], e1, rec)})"
+            if t == "bool" and isinstance(body[0].value, ast.Constant) and isinstance(body[0].value.value, bool):
+                e1[x] = "bool"
+                return f"(let {x} : bool := {'true' if body[0].value.value else 'false'} in {self.stmts(body[1:], e1, rec)})"
+        # for idx, x in enumerate(reversed(xs)): body      (state: the local variables the body re-assigns)
+        if body and isinstance(body[0], ast.For) and not body[0].orelse and isinstance(body[0].target, ast.Tuple) \
+                and len(body[0].target.elts) == 2 and all(isinstance(t, ast.Name) for t in body[0].target.elts) \
+                and ast.unparse(body[0].iter).startswith("enumerate(reversed(") and isinstance(body[0].iter, ast.Call) \
+                and len(body[0].iter.args) == 1 and isinstance(body[0].iter.args[0], ast.Call) and len(body[0].iter.args[0].args) == 1:
+            if not self.fallible:
+                raise Untranslatable("a loop in a total method")
+            xs, txs = self.expr(body[0].iter.args[0].args[0], env)
+            if txs != "strs":
+                raise Untranslatable("loop over " + txs)
+            idx, x = body[0].target.elts[0].id, body[0].target.elts[1].id
+            state = []
+            for n in ast.walk(body[0]):
+                tg = None
+                if isinstance(n, ast.AugAssign) and isinstance(n.target, ast.Name):
+                    tg = n.target.id
+                elif isinstance(n, ast.Assign) and len(n.targets) == 1 and isinstance(n.targets[0], ast.Name):
+                    tg = n.targets[0].id
+                if tg and tg in env and tg not in (idx, x) and tg not in state:
+                    state.append(tg)
+            if not state or any(env[v] not in ("strs", "bool") for v in state):
+                raise Untranslatable("loop state " + repr(state))
+            tup = "(" + ", ".join(state) + ")"
+            e1 = dict(env)
+            e1[idx], e1[x] = "nat", "str"
+            self.loop_end = f"(Ok {tup})"
+            try:
+                inner = self.stmts(list(body[0].body) + [ast.Pass()], e1, rec)
+            finally:
+                self.loop_end = None
+            ty = " * ".join({"strs": "list str", "bool": "bool"}[env[v]] for v in state)
+            return (f"(match loop_idx (fun ({idx} : nat) ({x} : str) (st : {ty}) => let '{tup} := st in {inner}) 0 (rev {xs}) {tup} with "
+                    f"Err e => Err e | Ok {tup} => {self.stmts(body[1:], env, rec)} end)")
         # list mutation on a local list of str: xs.append(e) / xs[-1] = e / xs[0] = e
         if body and isinstance(body[0], ast.Expr) and isinstance(body[0].value, ast.Call) and isinstance(body[0].value.func, ast.Attribute) \
                 and body[0].value.func.attr == "append" and isinstance(body[0].value.func.value, ast.Name) \
@@ -1485,6 +1565,8 @@ class ModFn(MethFn):
         if body and isinstance(body[0], ast.If) and ast.unparse(body[0].test) == "type(url_) is not URL" and len(body[0].body) == 1 \
                 and isinstance(body[0].body[0], ast.Raise) and not body[0].orelse:
             return self.stmts(body[1:], env, rec)      # type dispatch on the argument (a URL by assumption)
+        if body and isinstance(body[0], ast.Pass) and len(body) == 1 and getattr(self, "loop_end", None):
+            return self.loop_end
         if body and isinstance(body[0], ast.Pass):
             return self.stmts(body[1:] , env, rec)
         if body and isinstance(body[0], ast.Raise):
@@ -1507,8 +1589,11 @@ class ModFn(MethFn):
         return super().stmts(body, env, rec)
 
     def translate(self, fd):
-        if fd.args.vararg or fd.args.kwarg or fd.args.posonlyargs or fd.args.defaults:
+        if fd.args.vararg or fd.args.kwarg or fd.args.posonlyargs:
             raise Untranslatable("signature of " + fd.name)
+        for d in fd.args.defaults:
+            if not (isinstance(d, ast.Constant) and d.value in (True, False)):
+                raise Untranslatable("default value " + ast.unparse(d))
         for d in fd.decorator_list:
             if ast.unparse(d) != "cached_property":
                 raise Untranslatable("decorator " + ast.unparse(d))
@@ -1532,6 +1617,8 @@ class ModFn(MethFn):
                 t, ct = "portarg", "portarg"
             elif ast.unparse(a.annotation).strip("'\"") == "URL":
                 t, ct = "url", "url"
+            elif ast.unparse(a.annotation).strip("'\"") == "Sequence[str]":
+                t, ct = "strs", "list str"
             else:
                 t = TreeFn({}).ann(a.annotation)
                 ct = self.COQ[t]
@@ -1717,6 +1804,7 @@ SOURCES = [
       ("URL.raw_name", "(self : url) : result str", "Err OtherError", "mod", "rstr"),
       ("URL._with_raw_name", "(self : url) (name : str) (keep_query keep_fragment : bool) : result url", "Err OtherError", "mod", "rurl"),
       ("URL.with_name", "(self : url) (name : str) (keep_query keep_fragment : bool) : result url", "Err OtherError", "mod", "rurl"),
+      ("URL._make_child", "(self : url) (paths : list str) (encoded : bool) : result url", "Err OtherError", "mod", "rurl"),
       ("URL.raw_query_string", "(self : url) : str", "[]", "mod", "str"),
       ("URL.query_string", "(self : url) : str", "[]", "mod", "str"),
       ("URL.raw_fragment", "(self : url) : str", "[]", "mod", "str"),
